@@ -72,6 +72,10 @@ class ServiceMeta(ServiceBaseMeta):
             if not hasattr(v, '_is_rpc'):
                 continue
 
+            if hasattr(ServiceBaseBase, k):
+                raise ValueError("%r can't be the name of a method: service "
+                                 "classes use that name themselves" % k)
+
             descriptor = v(_default_function_name=k, _service_class=self)
 
             # these two lines are needed for staticmethod wrapping to work
